@@ -327,12 +327,33 @@ func ruleC05All(p *Prog, r *Result) {
 				if pa.End != "iter" {
 					return false, "the loop over the documents is left early"
 				}
+				appended := false
 				for _, v := range pa.Carried {
 					if v.Op == "append" && len(v.Args) == 2 && v.Args[0].Op == "carried" && v.Args[1].Op == "lit" && len(v.Args[1].Args) == 1 {
-						return true, ""
+						appended = true
 					}
 				}
-				return false, "a decoded document is not appended to the result"
+				if !appended {
+					return false, "a decoded document is not appended to the result"
+				}
+				// what is handed to the decoder is the part itself, byte for byte
+				part := mElemOf(parts)
+				decoded := false
+				for _, e := range pa.Effects {
+					if !strings.HasSuffix(e.Callee, ".Unmarshal") || len(e.Args) < 1 {
+						continue
+					}
+					a := e.Args[0]
+					if a.Op == "convert" && len(a.Args) == 1 && part(a.Args[0]) {
+						decoded = true
+						continue
+					}
+					return false, "the text handed to the decoder is not the document as it stands in the stream (" + truncate(a.String(), 70) + "): leading or trailing characters that belong to a value (a block scalar's final line breaks) are lost on reading back"
+				}
+				if !decoded {
+					return false, "a part of the stream is turned into a document without being decoded"
+				}
+				return true, ""
 			})
 		pr.all("the stream is split on the format's separator pattern over the whole input", selectPaths(pr.paths, isSuccess), "re.Split(string(in), -1)", func(pa *Path) (bool, string) {
 			for _, e := range pa.Effects {
